@@ -155,7 +155,7 @@ def run_real(R, hist_inputs, envs):
     return res
 
 
-def check(ctx):
+def _check_main(ctx):
     R = ctx.real
     rng = ctx.rng
     T = R.types
@@ -222,6 +222,41 @@ def check(ctx):
                     ctx.violation("sess-split:" + " | ".join(parts), " | ".join(parts), "%s | %s" % (ref_res, env_canon(env_ref[sid], T)),
                                   "%s | %s" % (c_res, env_canon(env_c[sid], T)), "execute() of the parts in order on one EvalEnvironment")
     ctx.correspond("sess", cases)
+    # ---- one input vs successive inputs when a statement FAILS (every kind of evaluation error; assignments before it
+    #      must persist exactly as if the statements had been fed one by one)
+    pool_ok = ["a = 1", "b = a + 1", "a = a * 2", "c = 3 m", "a", "b", "x = 5", "y = x + a", "{t : t in 1..3}", "s = 2; s"]
+    pool_bad = ["{a : a < 3}", "1/0", "nosuch(1)", "undefinedvar", "{x : x in 5}", "a + \"s\"", "3 m + 1 s", "{t : t in 1..3, t + 5}",
+                "sqrt(0-1)", "5 to m", "C(1/2, 1)", "max()", "1 kdegC", "a(1)"]
+    for _ in range(ctx.n(60, 800)):
+        stmts = [rng.choice(pool_ok) for _ in range(rng.randrange(1, 4))] + [rng.choice(pool_bad)] + \
+                [rng.choice(pool_ok) for _ in range(rng.randrange(0, 3))]
+        env_ref = R.new_env()
+        ref = None
+        for st in stmts:
+            ref = run_real(R, [(1, st)], {1: env_ref})[0]
+            if not ref.startswith("ok"):
+                break
+        env_j = R.new_env()
+        jr = run_real(R, [(1, "; ".join(stmts))], {1: env_j})[0]
+        key = "; ".join(stmts)
+        ctx.count("split-fail:" + key, bucket="split-with-failure")
+        if (jr.split(":")[0], env_canon(env_j, T)) != (ref.split(":")[0], env_canon(env_ref, T)):
+            ctx.violation("sess-split:" + key, key, "as fed one by one up to the first failure: %s | %s" % (ref, env_canon(env_ref, T)),
+                          "%s | %s" % (jr, env_canon(env_j, T)), "execute(joined) vs execute(each statement) on one EvalEnvironment")
+    # ---- calls of execute() WITHOUT an environment are fresh sessions each time
+    for setup, probe in (("zz = 5", "zz"), ("pi = 3", "pi"), ("e = 1", "ln(e)"), ("true = 0", "true"), ("sin = 4", "sin")):
+        import io as _io
+        o1, e1 = _io.StringIO(), _io.StringIO()
+        R.interpret.execute(setup, out=o1, errout=e1)
+        o2, e2 = _io.StringIO(), _io.StringIO()
+        st2 = R.interpret.execute(probe, out=o2, errout=e2)
+        k0, v0 = R.value(probe, env=R.new_env())
+        o3, e3 = _io.StringIO(), _io.StringIO()
+        st3 = R.interpret.execute(probe, env=R.new_env(), out=o3, errout=e3)
+        ctx.count("envless:" + setup, bucket="env-less sessions")
+        if (st2, o2.getvalue()) != (st3, o3.getvalue()):
+            ctx.violation("sess-envless-shared:" + setup, "execute(%r); execute(%r)  (no env argument)" % (setup, probe),
+                          "a fresh session: %r" % ((st3, o3.getvalue()),), repr((st2, o2.getvalue())), "two env-less execute() calls in one process")
     # ---- constants and namespaces on the real code
     env = R.new_env()
     for name, want in (("pi", math.pi), ("e", math.e), ("true", 1), ("false", 0)):
@@ -268,3 +303,11 @@ def check(ctx):
             or (sorted(KU.NAME_TO_UNIT), sorted(KU.SYMBOL_TO_UNIT), len(KU.UNITS)) != units0:
         ctx.violation("sess-global-mutation", "the histories above", "CONSTANTS / FUNCTIONS / unit tables unchanged", "changed",
                       "compare ka.eval.CONSTANTS, ka.functions.FUNCTIONS, ka.units.* before and after")
+
+
+
+def check(ctx):
+    _check_main(ctx)
+    # shared oracle: operators return new values, operands bound to variables are never updated in place
+    import alias_common
+    alias_common.run(ctx, prefix="alias")
